@@ -5,17 +5,20 @@ For every claimed property the same VERIF_SEED is executed in several separate w
 started with GOMAXPROCS 1, 4 and 16 in the environment (the worker pins itself to 1; this test
 proves it), plain and - where the check uses it - race build. Each worker reports, per run, a hash
 over its event log (reader events, scheduling decisions, transcript keys) and the tape length;
-all reports for one (property, seed) must be identical. Exit 0 if so, 1 otherwise."""
+all reports for one (property, seed) must be identical. One more process per flavour starts half
+way through the run indices: a run's event log must not depend on what its process ran before.
+Exit 0 if so, 1 otherwise."""
 import json, os, subprocess, sys
 HOME=os.path.dirname(os.path.abspath(__file__))
 BIN=os.path.join(HOME,'.build','sim'); RACE=os.path.join(HOME,'.build','sim-race')
 YIELD=os.path.join(HOME,'.build','sim-yield'); YIELDRACE=os.path.join(HOME,'.build','sim-yield-race')
 PROPS=['C01','C03','C09','C10','C12','C13','C14','C15','C16','C17','C20']
+if os.environ.get('VERIF_SELFTEST_PROPS'): PROPS=os.environ['VERIF_SELFTEST_PROPS'].split(',')
 RACEPROPS={'C12','C14','C20'}
-def run(binp, prop, seed, n, gmp):
+def run(binp, prop, seed, n, gmp, start=0):
     env=dict(os.environ, GOMAXPROCS=str(gmp), VERIF_HOME=HOME)
     if binp in (RACE,YIELDRACE): env['GORACE']='halt_on_error=1 exitcode=66'
-    p=subprocess.run([binp,'worker','-prop',prop,'-tier','quick','-seed',str(seed),'-start','0','-stride','1','-maxruns',str(n),'-budget','100000','-evlog'],
+    p=subprocess.run([binp,'worker','-prop',prop,'-tier','quick','-seed',str(seed),'-start',str(start),'-stride','1','-maxruns',str(n-start),'-budget','100000','-evlog'],
                      stdout=subprocess.PIPE, stderr=subprocess.PIPE, text=True, env=env)
     for line in p.stdout.splitlines():
         try: m=json.loads(line)
@@ -37,7 +40,19 @@ def main():
                 if os.path.exists(YIELD):
                     # instrumented builds (a hand-off point before every statement) have their own schedules
                     groups.append([('instrumented GOMAXPROCS=%d'%g, run(YIELD,prop,seed,nn,g)) for g in (1,16,4)])
+            # a run must not depend on the runs its process executed before it (a replay executes it
+            # alone in a fresh process): one more process per flavour starts half way; the runs it
+            # shares with the first one must have the same event logs
+            late=[('plain, started at run %d'%(nn//2), BIN, 0)]
+            if prop in RACEPROPS and os.path.exists(YIELD): late.append(('instrumented, started at run %d'%(nn//2), YIELD, len(groups)-1))
             ok=True; ref=None
+            for name,binp,gi in late:
+                evh,rc=run(binp,prop,seed,nn,1,nn//2)
+                full=groups[gi][0][1][0] or {}
+                diff=[k for k in (evh or {}) if full.get(k)!=evh[k]]
+                if evh is None or len(evh)==0 or diff:
+                    ok=False
+                    print('MISMATCH %s seed %d: %s: runs %s differ from the same runs of a process that executed the earlier ones first (rc=%s)'%(prop,seed,name,diff[:8],rc))
             for reports in groups:
                 gref=reports[0][1][0]
                 if ref is None: ref=gref
